@@ -37,7 +37,7 @@ def main():
     for d in demos:
         shutil.move(d, d + ".aside")
     ENV["VERIF_REPO"] = wt
-    ENV["VERIF_OUT_DIR"] = "/tmp/verif-tool-out"
+    ENV["VERIF_OUT_DIR"] = "/tmp/verif-tool-out-%d" % os.getpid()
     meta["checks"] = {}
     try:
         for cid in checks:
@@ -54,7 +54,7 @@ def main():
     finally:
         for d in demos:
             shutil.move(d + ".aside", d)
-        shutil.rmtree("/tmp/verif-tool-out", ignore_errors=True)
+        shutil.rmtree("/tmp/verif-tool-out-%d" % os.getpid(), ignore_errors=True)
     json.dump(meta, open(os.path.join(dst, "meta.json"), "w"), indent=1)
 
 
